@@ -751,7 +751,10 @@ class SymInterp(Interp):
         if f.name in ("scipy.linalg.solve_triangular",):
             kw = dict(kwargs)
             ow = kw.pop("overwrite_b", False)
-            kw.pop("check_finite", None)
+            if kw.pop("check_finite", True):
+                for arr in list(args[:2]) + [kw.get("a"), kw.get("b")]:
+                    if isinstance(arr, SArr) and any(isinstance(x, Rat) and "nan" in x.symbols() for x in arr.data):
+                        raise NumpyRaise("ValueError", "array must not contain infs or NaNs")
             x = S.solve_triangular(*args, **kw)
             if ow and isinstance(args[1] if len(args) > 1 else kw.get("b"), SArr):
                 # "allow overwriting data in b": scipy may reuse b's memory for the solution (it does when b is contiguous)
